@@ -20,7 +20,7 @@ package core
 //@ pred routedNoHash(dd, h, id, res) := len(h) == 0 ==> res == canonID(id)
 
 //@ func (*DrandDaemon).readBeaconID(dd, metadata) (res, err)
-//@   props C19
+//@   props C19 C14
 //@   flags lockcheck
 //@   modifies metadata.BeaconID
 //@   loop 0: invariant [C19:loop-keeps-daemon-read-lock] onlyRLocked(dd.state) && nowlocks()
@@ -31,7 +31,7 @@ package core
 //@   ensures [C19:error-returns-no-id] err != nil ==> res == ""
 
 //@ func (*DrandDaemon).getBeaconProcessByID(dd, beaconID) (bp, err)
-//@   props C19
+//@   props C19 C14
 //@   flags lockcheck
 //@   modifies nothing
 //@   ensures [C19:lookup-is-exact] err == nil ==> has(dd.beaconProcesses, beaconID) && bp == dd.beaconProcesses[beaconID]
@@ -59,7 +59,7 @@ package core
 //@   ensures s == chainHashOf(infoGroup(i))
 
 //@ func (*DrandDaemon).RemoveBeaconProcess(dd, ctx, beaconID, bp)
-//@   props C19
+//@   props C19 C14
 //@   flags lockcheck
 //@   requires bp != nil
 //@   modifies mapof(dd.beaconProcesses), mapof(dd.chainHashes)
@@ -70,7 +70,7 @@ package core
 //@   ensures [C19:other-hashes-keep-resolving] forall k string :: !(bp.group != nil && k == chainHashOf(bp.group)) && !(bp.group == nil && k == "") && !(isDefaultID(beaconID) && k == "default") ==> has(dd.chainHashes, k) == old(has(dd.chainHashes, k))
 
 //@ func (*DrandDaemon).AddBeaconHandler(dd, ctx, beaconID, bp)
-//@   props C19
+//@   props C19 C14
 //@   flags lockcheck
 //@   requires bp != nil && dd.chainHashes != nil && dd.handler != nil && dd.handler.beacons != nil
 //@   modifies mapof(dd.chainHashes), mapof(dd.handler.beacons)
